@@ -79,4 +79,7 @@ def CB.record (cb : CB) (fail : Bool) : CB :=
 /-- state number as `circuitbreaker.State`: 1 closed, 3 open -/
 def CB.state (cb : CB) : Nat := if cb.isOpen then 3 else 1
 
+/-- **every attempt carries the client's full payload** (a retried request is the same request) -/
+def payloadOK (payload : String) (bodies : List String) : Bool := bodies.all (· == payload)
+
 end EgVerif.Retry
